@@ -228,11 +228,17 @@ func ruleRowLayoutAgreement(c *Ctx) {
 	file := c.P.FileOf(s.Pkg, s.Body.Pos())
 	par := c.P.Parents(file)
 	okFirst := false
-	var rowLoop *ast.RangeStmt
+	// the row loop, in either loop form
+	type loopT struct{ Body *ast.BlockStmt }
+	var rowLoop *loopT
 	for _, n := range s.sites(callPred(s, "utils/io.Serialize")) {
 		for m := par[n]; m != nil; m = par[m] {
 			if rs, ok := m.(*ast.RangeStmt); ok {
-				rowLoop = rs
+				rowLoop = &loopT{rs.Body}
+				break
+			}
+			if fs, ok := m.(*ast.ForStmt); ok {
+				rowLoop = &loopT{fs.Body}
 				break
 			}
 		}
@@ -330,9 +336,37 @@ func ruleHeaderLayout(c *Ctx) {
 	offs := pkg.TypesSizes.Offsetsof(fields)
 	if rh := c.F(rule, "(*utils/io.TimeBucketInfo).readHeader"); rh != nil && idxNames >= 0 {
 		var part1 int64 = -1
+		// the constant may live in readHeader, in a helper split off it, or at package level
+		decls := []*ast.FuncDecl{rh.Decl}
+		for _, h := range c.P.privateHelpers(rh) {
+			decls = append(decls, h.Decl)
+		}
+		inClosure := func(pos, end token.Pos) bool {
+			for _, d := range decls {
+				if pos >= d.Pos() && end <= d.End() {
+					return true
+				}
+			}
+			return false
+		}
 		for id, o := range rh.Pkg.TypesInfo.Defs {
-			if k, ok := o.(*types.Const); ok && id.Pos() >= rh.Decl.Pos() && id.End() <= rh.Decl.End() && k.Name() == "headerPart1Bytes" {
+			k, ok := o.(*types.Const)
+			if !ok || id == nil {
+				continue
+			}
+			local := inClosure(id.Pos(), id.End())
+			pkgLevel := k.Parent() == rh.Pkg.Types.Scope()
+			if (local || pkgLevel) && k.Name() == "headerPart1Bytes" {
 				part1, _ = constant.Int64Val(constant.ToInt(k.Val()))
+			}
+		}
+		if part1 < 0 { // renamed: a constant of the closure that has the value of the names offset
+			for id, o := range rh.Pkg.TypesInfo.Defs {
+				if k, ok := o.(*types.Const); ok && id != nil && inClosure(id.Pos(), id.End()) {
+					if v, ok2 := constant.Int64Val(constant.ToInt(k.Val())); ok2 && v == offs[idxNames] {
+						part1 = v
+					}
+				}
 			}
 		}
 		if part1 < 0 {
